@@ -57,6 +57,9 @@ def check(run):
     with R.as_rule('C12.tests'):
         C08.refuse(R)            # the refusing tests dominate the one sendall; a frame is written by the thread that sends it,
         C11.once(R)              # at once (no queue another thread flushes after its own Close)
+    from . import C14 as _C14
+    _C14.swallow(R, RID='C12.tests')        # only the library's own pong / ping swallow the refusal: an application send that
+                                            # loses the race gets the WebSocketError (send() / send_compressed() catch nothing)
     from . import C17
     R.rule('C12.session', 'the state that refuses sends and the socket they go to belong to the same connection: every '
                           'connect() gets a newly built session (no socket of the previous connection behind fresh flags)', 5)
